@@ -19,8 +19,15 @@
        `C08_layerB_race_observations` = `…_stale_weight` ∧ `…_delete` ∧ `…_index_leak`
 
   Nothing here is FALSE of the model as stated in the task; the observations of section 5 are consequences of the
-  read–compute–send structure of `put_or_update` (see there).  The one finding of this round is in Expiry.lean
-  (`C09_layerB_extension_race_loses_key`).
+  read–compute–send structure of `put_or_update` (see there).
+
+  After fix c86efeb (`weight_of` answers an `Option`): `upsB_uw2` takes the charged weight as an `Option Int`
+  (`chargedWeight?` of Lemmas/Upsert.lean) — a pure time-to-live change of a key id that is NOT charged at
+  `upsert.weight_of` hands on NO weight, so nothing is sent and the call answers Accepted on the spot (it computed
+  `0 ± 24` before, and panicked on `0 − 24`); see the example "not charged at `upsert.weight_of`" in section 5.  All
+  race observations of section 5 evaluate as before: in each of them the id IS charged when `upsert.weight_of` runs, or a
+  weight is given / recomputed.  The finding of Expiry.lean (D13) is repaired by fix 36c87dc
+  (`C09_layerB_extension_race_keeps_key` there).
 -/
 import CachedProofs.LayerB.BijectionLemmas
 import CachedProofs.Lemmas.Upsert
@@ -190,19 +197,20 @@ theorem C08_layerB_update_effect {b b' : BState} {i k : Nat} {v : Option Nat} {w
 
 /-- the weight `put_or_update` hands on after `upsert.weight_of` (Layer A's `uw2`): the weight of the request if there
     is one (explicit, or recomputed from the new value); else the weight `existing` charged for the id at this very
-    action `± ttl_ticker_entry_size` when a time-to-live is added to / removed from the key; else none -/
-def upsB_uw2 (cfg : Cfg) (uw : Option Int) (existing : Int) (old new : Option Nat) : Option Int :=
+    action `± ttl_ticker_entry_size` when a time-to-live is added to / removed from the key — if the id is charged at
+    all (`existing = none`: no weight, fix c86efeb); else none -/
+def upsB_uw2 (cfg : Cfg) (uw : Option Int) (existing : Option Int) (old new : Option Nat) : Option Int :=
   match typeOfExpiryUpdate old new with
-  | .added _ => (match uw with | some x => some x | none => some (existing + cfg.ttlEntry))
-  | .deleted _ => (match uw with | some x => some x | none => some (existing - cfg.ttlEntry))
+  | .added _ => (match uw with | some x => some x | none => existing.map (· + cfg.ttlEntry))
+  | .deleted _ => (match uw with | some x => some x | none => existing.map (· - cfg.ttlEntry))
   | .updated _ _ => uw
   | .nothing => uw
 
 /-- it IS Layer A's weight (`upsertWeight` of Lemmas/Upsert.lean, the weight of `Cached.C08_weight_command`), with the
-    charged weight read in the state `s` -/
+    charged weight (`chargedWeight?`: none if the id is not charged) read in the state `s` -/
 theorem upsB_uw2_eq_upsertWeight (s : State) (e : Entry) (v : Option Nat) (w : Option Int) (ttl : Option Nat)
     (ne : Option Nat) :
-    upsB_uw2 s.cfg (upWeight s.cfg v w ttl) (chargedWeight s e.id) e.expiry ne = upsertWeight s e v w ttl ne := by
+    upsB_uw2 s.cfg (upWeight s.cfg v w ttl) (chargedWeight? s e.id) e.expiry ne = upsertWeight s e v w ttl ne := by
   unfold upsB_uw2 upWeight upsertWeight
   cases w with
   | some x => cases typeOfExpiryUpdate e.expiry ne <;> rfl
@@ -227,21 +235,21 @@ theorem upsB_index_eq_layerA (s : State) (id : Nat) (old new : Option Nat) :
   unfold upsertIndex
   cases typeOfExpiryUpdate old new <;> rfl
 
-/-- **C08 (2a): the `upsert.weight_of` action, exactly.**  It reads the weight charged for the id NOW (0 if the id is
-    not charged), changes nothing of the shared state, and moves on — carrying Layer A's `uw2` — to the index action
+/-- **C08 (2a): the `upsert.weight_of` action, exactly.**  It reads the weight charged for the id NOW (`chargedWeight?`:
+    none if the id is not charged), changes nothing of the shared state, and moves on — carrying Layer A's `uw2` — to the index action
     `type_of_expiry_update(old, new)` asks for, or straight to the tail (`upAfterIndex`) when the index needs nothing. -/
 theorem C08_layerB_weightOf_step {b b' : BState} {i id : Nat} {uw : Option Int} {old new : Option Nat} {o o' : Oracle}
     (hpc : b.cl[i]? = some (.upWeightOf id uw old new)) (h : stepB b (.client i) o = .ok (b', o')) :
     o' = o ∧
     (match typeOfExpiryUpdate old new with
-     | .added n => b' = setClient b i (.upTtlPut id n (upsB_uw2 b.g.cfg uw (chargedWeight b.g id) old new))
-     | .deleted e => b' = setClient b i (.upTtlDelete id e (upsB_uw2 b.g.cfg uw (chargedWeight b.g id) old new))
-     | .updated e n => b' = setClient b i (.upTtlRemove id e n (upsB_uw2 b.g.cfg uw (chargedWeight b.g id) old new))
-     | .nothing => b' = upAfterIndex b i id (upsB_uw2 b.g.cfg uw (chargedWeight b.g id) old new)) := by
+     | .added n => b' = setClient b i (.upTtlPut id n (upsB_uw2 b.g.cfg uw (chargedWeight? b.g id) old new))
+     | .deleted e => b' = setClient b i (.upTtlDelete id e (upsB_uw2 b.g.cfg uw (chargedWeight? b.g id) old new))
+     | .updated e n => b' = setClient b i (.upTtlRemove id e n (upsB_uw2 b.g.cfg uw (chargedWeight? b.g id) old new))
+     | .nothing => b' = upAfterIndex b i id (upsB_uw2 b.g.cfg uw (chargedWeight? b.g id) old new)) := by
   rw [upsB_stepB_client] at h
   unfold clientAct at h
   simp only [hpc] at h
-  unfold upsB_uw2 chargedWeight
+  unfold upsB_uw2 chargedWeight?
   cases ht : typeOfExpiryUpdate old new <;> simp only [ht] at h ⊢ <;>
     simp only [Except.ok.injEq, Prod.mk.injEq] at h <;> obtain ⟨rfl, rfl⟩ := h <;> exact ⟨rfl, rfl⟩
 
@@ -387,7 +395,7 @@ def upsB_Updated (h : List (BState × Act)) (i id : Nat) (uw : Option Int) (old 
 def upsB_Weighed (h : List (BState × Act)) (i id : Nat) (uw2 : Option Int) (old new : Option Nat) : Prop :=
   ∃ h1 h2 p, h = h2 ++ p :: h1 ∧ (∀ q ∈ h2, ∀ r, q.2 ≠ .issue i r) ∧
     ∃ uw, p.2 = .client i ∧ p.1.cl[i]? = some (.upWeightOf id uw old new) ∧
-      uw2 = upsB_uw2 p.1.g.cfg uw (chargedWeight p.1.g id) old new ∧ upsB_Updated h1 i id uw old new
+      uw2 = upsB_uw2 p.1.g.cfg uw (chargedWeight? p.1.g id) old new ∧ upsB_Updated h1 i id uw old new
 
 theorem upsB_Updated.mono {h : List (BState × Act)} {i id : Nat} {uw : Option Int} {old new : Option Nat}
     (x : BState × Act) (hx : ∀ r, x.2 ≠ .issue i r) (hh : upsB_Updated h i id uw old new) :
@@ -527,7 +535,7 @@ theorem upsB_pcInv_step {H : List (BState × Act)} {b b' : BState} {a : Act} {o 
         · have := upsB_pc_of_set hlt hp; subst this; trivial
         · have := upsB_pc_of_set hlt hp; subst this; trivial
       case upWeightOf id uw old new =>
-        have hW : upsB_Weighed ((b, .client i) :: H) i id (upsB_uw2 b.g.cfg uw (chargedWeight b.g id) old new) old new :=
+        have hW : upsB_Weighed ((b, .client i) :: H) i id (upsB_uw2 b.g.cfg uw (chargedWeight? b.g id) old new) old new :=
           ⟨H, [], (b, .client i), rfl, (fun q hq => by cases hq), uw, rfl, hpc, rfl, hi _ hpc⟩
         obtain ⟨_, hb'⟩ := C08_layerB_weightOf_step hpc hs
         cases ht : typeOfExpiryUpdate old new <;> simp only [ht] at hb' <;> subst hb'
@@ -890,7 +898,7 @@ example : upsB_at (upsB_setup ++ call 1 (.upsert 1 none none none true) 2) (fun 
     (match b.cl[1]? with
      | some (CPc.upWeightOf id uw old new) => decide (id = 1 ∧ uw = none ∧ old = some 1000 ∧ new = none)
      | _ => false) &&
-    decide (chargedWeight b.g 1 = 30 ∧ upsB_uw2 b.g.cfg none 30 (some 1000) none = some 6) &&
+    decide (chargedWeight? b.g 1 = some 30 ∧ upsB_uw2 b.g.cfg none (some 30) (some 1000) none = some 6) &&
     (match stepB b (.client 1) noO with
      | .ok (b1, _) =>
        decide (b1.g.ttl = b.g.ttl ∧ b1.g.store = b.g.store) &&
@@ -924,13 +932,41 @@ example : upsB_at (upsB_setup ++ call 1 (.upsert 1 none none (some 500) false) 4
     (match b.cl[1]? with
      | some (CPc.upTtlInsert id new uw) => decide (id = 1 ∧ new = 507 ∧ uw = none)
      | _ => false) &&
-    decide (upsB_uw2 b.g.cfg none 30 (some 1000) (some 507) = none) &&
+    decide (upsB_uw2 b.g.cfg none (some 30) (some 1000) (some 507) = none) &&
     (match stepB b (.client 1) noO with
      | .ok (b1, _) =>
        decide (b1.g.queue = [] ∧ b1.g.acks = [.accepted, .accepted] ∧ b1.g.ttl = [((0, 1), 507)]) &&
        (match b1.cl[1]?, b1.res[1]? with
         | some CPc.idle, some [Out.ack h st] => decide (h = 1 ∧ st = .accepted)
         | _, _ => false)
+     | _ => false)) = true := by decide
+
+/-- **Not charged at `upsert.weight_of` (fix c86efeb): the `none` case of `upsB_uw2`.**  `delete(1)` is marked, queued and
+    received; client 1's `put_or_update(1, remove_time_to_live)` (no value, no weight) does its `upsert.update` on the
+    flagged entry; the worker's delete runs completely (entry and charge gone; it read "no deadline" from the updated
+    entry, so the index entry stays).  Client 1's `upsert.weight_of` now finds id 1 NOT charged: it hands on NO weight
+    (before the fix: `0 − 24`, and the call panicked); `ttl.delete` takes the index entry out and the call is answered
+    Accepted on the spot, nothing is sent. -/
+example : upsB_at (upsB_setup ++ call 0 (.delete 1) 3 ++ workerN 1 ++ call 1 (.upsert 1 none none none true) 2 ++
+      workerN 3) (fun b =>
+    (match b.cl[1]? with
+     | some (CPc.upWeightOf id uw old new) => decide (id = 1 ∧ uw = none ∧ old = some 1000 ∧ new = none)
+     | _ => false) &&
+    decide (chargedWeight? b.g 1 = none ∧ upsB_uw2 b.g.cfg none none (some 1000) none = none ∧
+            b.g.store.get? 1 = none ∧ b.g.ttl = [((0, 1), 1000)] ∧ b.g.acks = [.accepted, .accepted]) &&
+    (match stepB b (.client 1) noO with
+     | .ok (b1, _) =>
+       (match b1.cl[1]? with
+        | some (CPc.upTtlDelete id e uw) => decide (id = 1 ∧ e = 1000 ∧ uw = none)
+        | _ => false) &&
+       (match stepB b1 (.client 1) noO with
+        | .ok (b2, _) =>
+          decide (b2.g.queue = [] ∧ b2.g.acks = [.accepted, .accepted, .accepted] ∧ b2.g.ttl = [] ∧ b2.g.adm.kw = [] ∧
+                  b2.g.adm.used = 0) &&
+          (match b2.cl[1]?, b2.res[1]? with
+           | some CPc.idle, some [Out.ack h st] => decide (h = 2 ∧ st = .accepted)
+           | _, _ => false)
+        | _ => false)
      | _ => false)) = true := by decide
 
 /-- the run of race (i) below up to the moment client 0 stands at `cmd.send`: client 0's `put_or_update(1,
@@ -1003,7 +1039,10 @@ theorem C08_layerB_only_upsert_run_witness :
     * With the two sends in the other order (client 0's command queued first) the final weight is 50: whichever
       `UpdateWeight` is queued last determines the charge.
     An observation about `put_or_update`'s read–compute–send on the caller's side; store, index and acknowledgements
-    are consistent in all four runs (entry without deadline, empty index). -/
+    are consistent in all four runs (entry without deadline, empty index).
+    (Re-evaluated after fix c86efeb: unchanged.  The fix only concerns an id that is NOT charged when `upsert.weight_of`
+    runs — then no weight is handed on, see the example "not charged at `upsert.weight_of`" above; here id 1 is charged
+    30 at that action, `chargedWeight? = some 30`, and the stale 30 − 24 = 6 is still sent and still wins.) -/
 theorem C08_layerB_race_observations_stale_weight :
     -- serial: client 0, then client 1
     upsB_at (upsB_setup ++ call 0 (.upsert 1 none none none true) 5 ++ workerN 2 ++
@@ -1033,7 +1072,7 @@ theorem C08_layerB_race_observations_stale_weight :
     Client 0 calls `delete(1)`: `delete.mark` flags the entry, the command is queued, the worker receives it and stands
     at its `store.remove`.  Client 1 calls `put_or_update(1, value 111)`: its `upsert.update` finds the (flagged) entry
     physically present and writes 111 into it — it does NOT act as a put.  The worker removes the entry, its charge and
-    its index entry, acknowledges the delete.  Client 1 goes on: `upsert.weight_of` reads "not charged" (0), the weight
+    its index entry, acknowledges the delete.  Client 1 goes on: `upsert.weight_of` reads "not charged" (none), the weight
     due is the recomputed 1, `UpdateWeight(1, 1)` is sent; the worker finds no charge for id 1 and answers Accepted.
     At the end: key 1 absent, nothing charged, empty index, all three acknowledgements Accepted — the accepted update
     is gone.  (The action-granularity form of `Cached.C08_counterexample_soft_deleted`.) -/
